@@ -97,10 +97,103 @@ let run_history toks =
     String.concat " ; " (List.rev !out)
     with Crab_error -> "ABORT")
   | _ -> failwith "bad history"
+(* ---- cell-algebra unit stream (ArrayAdaptCore) ---- *)
+let show_cell c = string_of_z c.c_off ^ ":" ^ string_of_z c.c_size ^ (if c.c_rem then "R" else "")
+let cmp_cell a b =
+  let c = ZA.compare (zarith_of_z a.c_off) (zarith_of_z b.c_off) in
+  if c <> 0 then c else ZA.compare (zarith_of_z a.c_size) (zarith_of_z b.c_size)
+let show_cells sorted cs =
+  let cs = if sorted then List.sort cmp_cell cs else cs in
+  "{" ^ String.concat "," (List.map show_cell cs) ^ "}"
+let iv = n_of_int 0
+let dom_of lo hi =
+  let d = ref e_top in
+  if lo <> "-oo" then d := d_add [{ lc_kind = INEQ; lc_exp = { le_terms = [(z_of_string "-1", iv)]; le_cst = z_of_string lo } }] !d;
+  if hi <> "+oo" then d := d_add [{ lc_kind = INEQ; lc_exp = { le_terms = [(z_of_string "1", iv)]; le_cst = z_of_zarith (ZA.neg (ZA.of_string hi)) } }] !d;
+  !d
+let sym_bounds sz =
+  ({ le_terms = [(z_of_string "1", iv)]; le_cst = z_of_string "0" },
+   { le_terms = [(z_of_string "1", iv)]; le_cst = z_of_zarith (ZA.pred (ZA.of_string sz)) })
+let rec take n l = if n <= 0 then [] else match l with [] -> [] | h :: t -> h :: take (n - 1) t
+let run_cells toks =
+  let m = [| []; [] |] in
+  let out = ref [] in
+  let emit s = out := s :: !out in
+  let esz_of s = if s = "T" then None else Some (z_of_string s) in
+  let show_esz = function None -> "+oo" | Some k -> string_of_z k in
+  (match split_ops toks with
+   | _ :: ops ->
+     List.iter (fun op -> if op <> [] then begin
+       let k = { t = Array.of_list op; p = 0 } in
+       match next k with
+       | "clear" -> let w = nexti k in m.(w) <- []; emit "{}"
+       | "mk" -> let w = nexti k in let o = nextz k in let sz = nextz k in
+         let (c, m') = om_mk m.(w) o sz in m.(w) <- m'; emit (show_cell c)
+       | "erase" -> let w = nexti k in let o = nextz k in let sz = nextz k in
+         m.(w) <- om_erase { c_off = o; c_size = sz; c_rem = false } m.(w); emit (show_cells false m.(w))
+       | "remove" -> let w = nexti k in let o = nextz k in let sz = nextz k in
+         m.(w) <- om_remove { c_off = o; c_size = sz; c_rem = false } m.(w); emit (show_cells false m.(w))
+       | "all" -> let w = nexti k in emit (show_cells false m.(w))
+       | "ncells" -> let w = nexti k in emit (string_of_int (List.length m.(w)))
+       | "ov" -> let w = nexti k in let o = nextz k in let sz = nextz k in
+         emit (show_cells true (om_get_overlap m.(w) o sz) ^ "/" ^ show_cells false m.(w))
+       | "covl" -> let co = nextz k in let cs = nextz k in let rem = nexti k <> 0 in
+         let o = nextz k in let sz = nextz k in
+         emit (if c_overlap { c_off = co; c_size = cs; c_rem = rem } o sz then "true" else "false")
+       | "sym" -> let w = nexti k in let lo = next k in let hi = next k in let sz = next k in
+         let (slb, sub) = sym_bounds sz in
+         emit (show_cells true (om_get_overlap_sym m.(w) slb sub (dom_of lo hi)))
+       | "csym" -> let co = nextz k in let cs = nextz k in let rem = nexti k <> 0 in
+         let lo = next k in let hi = next k in let sz = next k in
+         let (slb, sub) = sym_bounds sz in
+         emit (if c_sym_overlap { c_off = co; c_size = cs; c_rem = rem } slb sub (dom_of lo hi) then "true" else "false")
+       | "join" -> let w = nexti k in let s = nexti k in let t = nexti k in
+         m.(w) <- om_join m.(s) m.(t); emit (show_cells false m.(w))
+       | "meet" -> let w = nexti k in let s = nexti k in let t = nexti k in
+         m.(w) <- om_meet m.(s) m.(t); emit (show_cells false m.(w))
+       | "leq" -> let s = nexti k in let t = nexti k in emit (if om_leq m.(s) m.(t) then "true" else "false")
+       | "smash" -> let w = nexti k in let esz = nextz k in let nz = nexti k <> 0 in
+         emit (if can_be_smashed m.(w) esz nz then "true" else "false")
+       | "cover" -> let w = nexti k in let lo = next k in let hi = next k in let esz = nextz k in
+         let b s = if s = "-oo" then MInf else if s = "+oo" then PInf else Fin (z_of_string s) in
+         emit (if covers_all_offsets m.(w) { lb = b lo; ub = b hi } esz then "true" else "false")
+       | ("dstore" | "dload") as o ->
+         let w = nexti k in
+         let s = nexti k <> 0 in let n = nexti k <> 0 in let c = nextz k in let mm = nextz k in
+         let p = { p_smashable = s; p_nonzero = n; p_max_smash = c; p_max_size = mm } in
+         let sm = nexti k <> 0 in let es = esz_of (next k) in
+         let lo = next k in let hi = next k in let eszs = next k in let esz = z_of_string eszs in
+         let dom = dom_of lo hi in
+         let st = { as_smashed = sm; as_esz = es; as_map = m.(w) } in
+         let st' =
+           if e_is_bot dom then st
+           else begin
+             let idx = e_at dom iv in
+             let (slb, sub) = sym_bounds eszs in
+             if o = "dstore" then store_shape p st (store_decide p st idx slb sub dom esz) esz
+             else load_shape st (load_decide p st idx slb sub dom esz) esz
+           end in
+         emit (if st'.as_smashed then "S" ^ show_esz st'.as_esz else show_cells false st'.as_map)
+       | ("asjoin" | "asmeet") as o ->
+         let n = nexti k <> 0 in let c = nextz k in let mm = nextz k in
+         let p = { p_smashable = true; p_nonzero = n; p_max_smash = c; p_max_size = mm } in
+         let sx = nexti k <> 0 in let ex = esz_of (next k) in let sy = nexti k <> 0 in let ey = esz_of (next k) in
+         let n0 = nexti k in let n1 = nexti k in
+         let gh l c = List.exists (fun d -> cell_eqb c d) l in
+         let g0 = gh (take n0 m.(0)) and g1 = gh (take n1 m.(1)) in
+         let x = { as_smashed = sx; as_esz = ex; as_map = m.(0) } and y = { as_smashed = sy; as_esz = ey; as_map = m.(1) } in
+         let r = if o = "asjoin" then Some (as_join p g0 g1 x y) else as_meet p g0 g1 x y in
+         (match r with
+          | Some r -> emit ((if r.as_smashed then "S" else "N") ^ show_esz r.as_esz ^ show_cells false r.as_map)
+          | None -> raise Crab_error)
+       | o -> failwith ("unknown cells op " ^ o)
+     end) ops
+   | [] -> ());
+  String.concat " ; " (List.rev !out)
 let () =
   let lines = read_lines Sys.argv.(Array.length Sys.argv - 1) in
   List.iteri (fun i l ->
       let toks = split_ws l in
-      let r = try run_history toks
-        with Failure m -> "MODEL-ERROR " ^ m in
+      let r = try (match toks with "cells" :: _ -> run_cells toks | _ -> run_history toks)
+        with Failure m -> "MODEL-ERROR " ^ m | Crab_error -> "ABORT" in
       print_string ("R " ^ string_of_int i ^ " " ^ r ^ "\n")) lines
